@@ -221,11 +221,15 @@ func c19impl(rules []AddressRewriteRule, typ CandidateType, local, iface string)
 
 				continue
 			}
-			s, err := sanitizeAddressRewriteRule(r)
-			if err != nil {
+			san = append(san, r)
+		}
+		if !direct {
+			// the public path: the option itself (sanitiser, accumulation, conflict scan) on an agent under construction
+			ag := &Agent{log: nopLogger{}}
+			if err := WithAddressRewriteRules(san...)(ag); err != nil {
 				return
 			}
-			san = append(san, s)
+			san = ag.addressRewriteRules
 		}
 		m, err := newAddressRewriteMapper(san)
 		if err != nil {
@@ -262,7 +266,7 @@ func c19ruleString(r AddressRewriteRule) string {
 
 func checkC19(c *runCtx) {
 	c.setLevel("exploration")
-	c.assume("rule lists go through the same two steps as WithAddressRewriteRules: sanitizeAddressRewriteRule per rule, then newAddressRewriteMapper",
+	c.assume("rule lists go through the public option WithAddressRewriteRules applied to an agent under construction (sanitiser, accumulation, conflict scan), then newAddressRewriteMapper as the constructor does",
 		"'never cross families unless pinned by Local' is read strictly (a CIDR does not pin a family); the code's rule doc comment reads it differently — see known finding S17")
 
 	e4, e4b, e6 := "203.0.113.1", "203.0.113.2", "2001:db8:e::1"
